@@ -1024,6 +1024,7 @@ func driveBlocksSeq(opt *Options) error {
 		fmt.Sscan(s, &steps)
 	}
 	big := opt.Extra["big"] != "0"
+	blkBufferScenarios(tw, rnd)
 	var cfgs []blkRunCfg
 	for t := 0; t < opt.N; t++ {
 		switch t % 6 {
@@ -1527,4 +1528,178 @@ func blkStress(bs, segs, hold, G, ops int, rnd *rand.Rand) []blkNote {
 	}
 	e.snapshotCheck("stress quiescence")
 	return append(notes, e.notes...)
+}
+
+// blkBufferScenarios: what happens to the allocation state when the underlying buffer is grown under a live
+// Blocks object (in memory and memory-mapped), and when a memory-mapped file is opened once through a window
+// shorter than the file.  One summary event each; the contract is in BlocksTrace.tla (Scenario).
+func blkBufferScenarios(tw *TraceWriter, rnd *rand.Rand) {
+	probe := func(b *gbytes.Blocks) []int {
+		var set []int
+		for i := 0; i < b.Count(); i++ {
+			if b.FreeBlock(i) == nil {
+				set = append(set, i)
+			}
+		}
+		return set
+	}
+	keys := func(m map[int]bool) []int {
+		l := []int{}
+		for i := range m {
+			l = append(l, i)
+		}
+		sort.Ints(l)
+		return l
+	}
+	for _, kind := range []string{"inmem", "mm"} {
+		for _, bs := range []int{16, 64} {
+			ev := map[string]any{"op": "Grow", "kind": kind, "bs": bs}
+			dir, _ := os.MkdirTemp("", "vh-blk-grow-")
+			func() {
+				defer os.RemoveAll(dir)
+				defer func() {
+					if p := recover(); p != nil {
+						ev["crash"] = firstLine(fmt.Sprint(p))
+					}
+				}()
+				size := int64(4096 * (1 + (2*int(segBytes(bs))-1)/4096)) // whole pages holding at least two segments
+				var buf gbytes.Buffer
+				if kind == "mm" {
+					f, err := files.NewMMFile(filepath.Join(dir, "blocks.dat"), size)
+					if err != nil {
+						panic(err)
+					}
+					buf = f
+				} else {
+					buf = gbytes.NewInMemBytes(int(size))
+				}
+				b, err := gbytes.NewBlocks(bs, buf, false)
+				if err != nil {
+					panic(err)
+				}
+				held := map[int]bool{}
+				for k := 0; k < 5+rnd.Intn(20); k++ {
+					if i, err := b.ArrangeBlock(); err == nil {
+						held[i] = true
+					}
+				}
+				if err := buf.Grow(size + 4096*int64(1+rnd.Intn(3))); err != nil {
+					panic(err)
+				}
+				// the same object goes on working over the grown buffer
+				for k := 0; k < 3+rnd.Intn(10); k++ {
+					if i, err := b.ArrangeBlock(); err == nil {
+						held[i] = true
+					}
+				}
+				for i := range held {
+					if rnd.Intn(3) == 0 {
+						if b.FreeBlock(i) == nil {
+							delete(held, i)
+						}
+					}
+				}
+				// a second allocator on a copy of the grown bytes
+				raw, err := buf.Buffer(0, int(buf.Size()))
+				if err != nil {
+					panic(err)
+				}
+				cp := gbytes.NewInMemBytes(len(raw))
+				dst, _ := cp.Buffer(0, len(raw))
+				copy(dst, raw)
+				b2, err := gbytes.NewBlocks(bs, cp, false)
+				if err != nil {
+					panic(err)
+				}
+				ev["count"], ev["avail"] = b2.Count(), b2.Available()
+				ev["got"], ev["want"] = probe(b2), keys(held)
+				buf.Close()
+			}()
+			for _, k := range []string{"count", "avail"} {
+				if _, ok := ev[k]; !ok {
+					ev[k] = -1
+				}
+			}
+			for _, k := range []string{"got", "want"} {
+				if _, ok := ev[k]; !ok {
+					ev[k] = []int{}
+				}
+			}
+			tw.Emit(ev)
+		}
+	}
+	// a window shorter than the file
+	for _, bs := range []int{64} {
+		ev := map[string]any{"op": "Window", "bs": bs}
+		dir, _ := os.MkdirTemp("", "vh-blk-win-")
+		func() {
+			defer os.RemoveAll(dir)
+			defer func() {
+				if p := recover(); p != nil {
+					ev["crash"] = firstLine(fmt.Sprint(p))
+				}
+			}()
+			fn := filepath.Join(dir, "blocks.dat")
+			size := int64(4096 * (1 + (3*int(segBytes(bs))-1)/4096))
+			f, err := files.NewMMFile(fn, size)
+			if err != nil {
+				panic(err)
+			}
+			b, err := gbytes.NewBlocks(bs, f, false)
+			if err != nil {
+				panic(err)
+			}
+			held := map[int]bool{}
+			for k := 0; k < b.Count(); k++ { // fill everything, then free a scattered third
+				if i, err := b.ArrangeBlock(); err == nil {
+					held[i] = true
+				}
+			}
+			for i := range held {
+				if rnd.Intn(3) == 0 && b.FreeBlock(i) == nil {
+					delete(held, i)
+				}
+			}
+			f.Close()
+			// open only the first pages of the file once, look, close
+			w, err := files.NewMMFile(fn, 4096*2)
+			if err != nil {
+				panic(err)
+			}
+			w.Buffer(0, 16)
+			w.Close()
+			st, err := os.Stat(fn)
+			if err != nil {
+				panic(err)
+			}
+			ev["filelen"], ev["wantlen"] = st.Size(), size
+			full, err := files.NewMMFile(fn, -1)
+			if err != nil {
+				panic(err)
+			}
+			if full.Size() < size {
+				if err := full.Grow(size); err != nil {
+					panic(err)
+				}
+			}
+			b2, err := gbytes.NewBlocks(bs, full, false)
+			if err != nil {
+				panic(err)
+			}
+			ev["count"], ev["avail"] = b2.Count(), b2.Available()
+			ev["got"], ev["want"] = probe(b2), keys(held)
+			full.Close()
+		}()
+		for _, k := range []string{"count", "avail", "filelen", "wantlen"} {
+			if _, ok := ev[k]; !ok {
+				ev[k] = -1
+			}
+		}
+		for _, k := range []string{"got", "want"} {
+			if _, ok := ev[k]; !ok {
+				ev[k] = []int{}
+			}
+		}
+		tw.Emit(ev)
+	}
 }
